@@ -41,6 +41,23 @@ SizeOfM(ty, mode) == CASE ty.k = "prim" -> PrimSize(ty.t)
                        [] ty.k = "array" -> ty.n * SizeOfM(ty.e, mode)
                        [] ty.k = "struct" -> AlignUp(StructEnd(ty.ms, 1, 0, mode), StructAlign(ty.ms, 1, 1, mode))
                        [] ty.k = "word" -> ty.bytes
+\* The same layout for a target whose pointers and `usize` are pw bytes wide (`--wasm`: wasm32, pw = 4; the README's WASM4
+\* example): only the size and alignment of pointers and of usize change, every other rule is the same.
+RECURSIVE SizeOfT(_, _, _), AlignOfT(_, _, _), StructEndT(_, _, _, _, _), StructAlignT(_, _, _, _, _)
+PrimSizeT(t, pw) == IF t = "usize" THEN pw ELSE PrimSize(t)
+AlignOfT(ty, mode, pw) == CASE ty.k = "prim" -> Min(PrimSizeT(ty.t, pw), MaxAlign)
+                            [] ty.k = "ptr" -> pw
+                            [] ty.k = "array" -> AlignOfT(ty.e, mode, pw)
+                            [] ty.k = "struct" -> StructAlignT(ty.ms, 1, 1, mode, pw)
+                            [] ty.k = "word" -> IF mode = "declared" THEN Min(ty.bytes, MaxAlign) ELSE ty.malign
+StructEndT(ms, i, off, mode, pw) == IF i > Len(ms) THEN off
+                                    ELSE StructEndT(ms, i + 1, AlignUp(off, AlignOfT(ms[i], mode, pw)) + SizeOfT(ms[i], mode, pw), mode, pw)
+StructAlignT(ms, i, a, mode, pw) == IF i > Len(ms) THEN a ELSE StructAlignT(ms, i + 1, Max(a, AlignOfT(ms[i], mode, pw)), mode, pw)
+SizeOfT(ty, mode, pw) == CASE ty.k = "prim" -> PrimSizeT(ty.t, pw)
+                           [] ty.k = "ptr" -> pw
+                           [] ty.k = "array" -> ty.n * SizeOfT(ty.e, mode, pw)
+                           [] ty.k = "struct" -> AlignUp(StructEndT(ty.ms, 1, 0, mode, pw), StructAlignT(ty.ms, 1, 1, mode, pw))
+                           [] ty.k = "word" -> ty.bytes
 SizeOf(ty) == SizeOfM(ty, "declared")
 AlignOf(ty) == AlignOfM(ty, "declared")
 \* the length `|x|` of an array with n elements, however it is passed and wherever it is stored (a variable, a
